@@ -934,7 +934,7 @@ class Model:
         # Check all targets before changing anything, a rejected edit must not be applied partially
         for rxn_name in stoichiometries or {}:
             if rxn_name not in self._reactions and not any(
-                surrogate.stoichiometries.get(rxn_name)
+                rxn_name in surrogate.stoichiometries
                 for surrogate in self._surrogates.values()
             ):
                 msg = f"Reaction '{rxn_name}' not found in reactions or surrogates"
@@ -951,7 +951,9 @@ class Model:
                     cast(dict, rxn.stoichiometry)[name] = value
                 else:
                     for surrogate in self._surrogates.values():
-                        if stoich := surrogate.stoichiometries.get(rxn_name):
+                        if (
+                            stoich := surrogate.stoichiometries.get(rxn_name)
+                        ) is not None:
                             target = True
                             stoich[name] = value
                 if not target:
